@@ -1,6 +1,6 @@
 SPECIFICATION Spec
 CONSTANTS NW = 1  NR = 1  MaxW = 0  MaxI = 2  MaxJ = 1  JunkLens <- JL1
-  UseWMu = TRUE  UseRMu = TRUE  UseLk = TRUE  DeobfInLock = TRUE  JunkRetry = FALSE  UnlockOnRetry = TRUE
+  UseWMu = TRUE  UseRMu = TRUE  UseLk = TRUE  DeobfInLock = TRUE  JunkRetry = FALSE  UnlockOnRetry = TRUE  KeyOwned = TRUE
 INVARIANT NoViolation
 
 VIEW View
